@@ -569,11 +569,7 @@ class Ev3(AutoEvaluator):
                         return Unknown(f"keyword {k.arg}")
                     args.append(F.fn("kw:" + k.arg, need(v)))
                 return F.fn("apply", *args)
-        saved, self.inline = self.inline, None
-        try:
-            return super()._call(node)
-        finally:
-            self.inline = saved
+        return super()._call(node)
 
     def _inline_call(self, node, fn=None, name=None):
         if fn is None:
